@@ -31,59 +31,63 @@ Example C04_rejection_happens :
 Proof. eexists; eexists; eexists. split; [vm_compute; reflexivity | split; [vm_compute; reflexivity | vm_compute; reflexivity]]. Qed.
 """),
  "C01": dict(
-   header="""   C01 — a present key's first occurrence lies inside the returned range.  PARTIAL (DESIGN.md 6.1):
-   proved here is the arithmetic core, on the macros regenerated from the source (GenLeaf.v) and on the
-   model's transcription of the intercept rounding:
-   * C01_window_present: pos within [r-eps-1, r+eps] of the rank r gives lo <= hi <= n, hi-lo <= 2eps+2,
-     lo <= pos, r in [lo,hi)  -- for every eps >= 0, n, pos, r;
-   * C01_pos_from_feasible_line: a segment line that is eps-feasible at (k, r) (what C03 proves of every
-     fed point), evaluated as the C++ does (truncated product + rounded intercept) with a floating-point
-     product within 1/2 of the exact one (ev_close), predicts pos in [r-eps-1, r+eps];
-   * C01_core: the two combined with the cap by the next intercept.
-   NOT proved: that build/segment_for_key deliver such a segment for every present key (routing,
-   capping, first-occurrence feeding: stated in DESIGN.md 6.1 (i),(iii),(v)) and the instantiation of
-   ev_close by the Flocq model; these are tied by the correspondence check and judged per query.""",
-   imports=["Base", "PlaModel", "PlaSpec", "GenLeaf", "IndexModel", "IndexProofs"],
-   entries=[("C01_window_present", "IndexProofs.v", "window_present"),
+   header="""   C01 — a present key's first occurrence lies inside the returned range.
+   PROVED END TO END on the model (build + segment_for_key + search), for every sorted integer-key array,
+   every Epsilon >= 1, every EpsilonRecursive >= 0 (0, linear scan, binary search), every chunk count:
+   * C01_search: build c data = Ok ix, q in data  ==>  search c ix q = Ok a with lo <= hi <= n,
+     hi - lo <= 2*eps + 2, lo <= pos and lo <= lb data q < hi;
+   * C01_search0: the EpsilonRecursive = 0 instance (also the base of the Bucketing/Elias-Fano/Mapped variants).
+   Hypotheses: keys within the key type, last key below the sentinel, n < 2^32 (uint32 intercept), and the
+   ONLY non-structural one: float_ok c data k -- every floating-point product evaluated on the routing path of
+   this query is within 1/2 of the exact product before truncation (eval_ok; DESIGN.md 4.2).  The Flocq
+   instantiation of float_ok under a span bound is not proved; the judge evaluates C01_pred_b on every query.
+   Also kept: the arithmetic core lemmas the composition rests on.""",
+   imports=["Base", "PlaModel", "PlaSpec", "GenLeaf", "IndexModel", "IndexProofs", "IdxFed", "IdxSeg", "IdxBlock", "IdxLevel", "IdxSearch0", "IdxRoute", "IdxChain", "IdxMain", "IdxBeyond", "IdxFuel"],
+   entries=[("C01_search", "@check", "C01_search"),
+            ("C01_search0", "@check", "C01_search0"),
+            ("C01_window_present", "IndexProofs.v", "window_present"),
             ("C01_pos_from_feasible_line", "IndexProofs.v", "pos_from_feasible_line"),
-            ("C01_core", "IndexProofs.v", "C01_core"),
-            ("C01_round_div_half", "IndexProofs.v", "round_div_half")],
-   examples="""(* non-vacuity: eps = 2, line through (10,3) with slope 1/2, key 14 at rank 5, exact product 2 *)
-Example C01_core_instance :
-  line_in_band 2 10 3 2 1 (14, 5) /\ band_hi 2 5 = 7 /\ ev_close 2 1 (14 - 10) 2.
-Proof. unfold line_in_band, ev_close. vm_compute. repeat split; intro; discriminate. Qed.
-"""),
+            ("C01_round_div_half", "IndexProofs.v", "round_div_half")]),
  "C02": dict(
-   header="""   C02 — lower_bound inside the returned range equals the global lower_bound.  PARTIAL (DESIGN.md 6.2):
-   * C02_lb_range_eq: the property's wording -- whenever the global lower bound lies in [lo,hi] and
-     hi <= n, std::lower_bound restricted to [lo,hi) returns it (all sorted lists, all queries);
-   * C02_window_absent: pos within [r-eps-2, r+eps] of the lower bound r (the bound an absent key
-     gets from the guard point after a duplicate run) gives lo <= r <= hi <= n;
-   * C02_window_shape: 0 <= lo, hi <= n, hi-lo <= 2eps+2, lo <= pos for EVERY pos (no hypothesis);
-   * C02_judge_complete: the judge's boolean accepts exactly under those bounds.
-   NOT proved: that search delivers such a pos for every query (see C01's header).""",
-   imports=["Base", "PlaModel", "PlaSpec", "GenLeaf", "IndexModel", "IndexProofs"],
-   entries=[("C02_lb_range_eq", "IndexProofs.v", "lb_range_eq"),
+   header="""   C02 — lower_bound inside the returned range equals the global lower_bound.
+   PROVED on the model for every sorted integer-key array, Epsilon >= 1, any chunk count:
+   * C02_search0: EpsilonRecursive = 0, EVERY query below the sentinel (below the first key, present, in a gap,
+     after a run of duplicates, above the last key): 0 <= lo <= lb data q <= hi <= n, hi-lo <= 2eps+2;
+   * C02_search_scan: every EpsilonRecursive on the linear-scan path (<= the translated threshold), EVERY query;
+   * C02_search_partial: every EpsilonRecursive (incl. the binary-search path), every query q <= last key;
+   * C02_lb_range_eq: hence lower_bound restricted to [lo,hi) IS the global lower_bound (the property's wording).
+   Same hypotheses as C01 (float_ok is the only non-structural one).
+   NOT proved: last < q < sentinel on the binary-search routing path (EpsilonRecursive above the threshold) --
+   three structural facts about the extra (last+1) segment are missing (IdxBeyond.v, final comment); judged.""",
+   imports=["Base", "PlaModel", "PlaSpec", "GenLeaf", "IndexModel", "IndexProofs", "IdxFed", "IdxSeg", "IdxBlock", "IdxLevel", "IdxSearch0", "IdxRoute", "IdxChain", "IdxMain", "IdxBeyond", "IdxFuel"],
+   entries=[("C02_search0", "@check", "C02_search0"),
+            ("C02_search_scan", "@check", "C02_search_scan"),
+            ("C02_search_partial", "@check", "C02_search_partial"),
+            ("C02_lb_range_eq", "IndexProofs.v", "lb_range_eq"),
             ("C02_window_absent", "IndexProofs.v", "window_absent"),
-            ("C02_window_shape", "IndexProofs.v", "window_shape"),
             ("C02_judge_complete", "IndexProofs.v", "C02_pred_b_of_bounds")],
    examples="""Example C02_lb_range_instance : lb_range [1;3;3;7;9] 1 4 3 = lb [1;3;3;7;9] 3.
 Proof. vm_compute. reflexivity. Qed.
 """),
  "C07": dict(
-   header="""   C07 — bounded work per level.  PARTIAL (DESIGN.md 6.7):
-   * C07_route_window_scan: if the responsible segment j is within eps_r+1 of the predicted position, the
-     linear scan starting at pos-(eps_r+1) reads at most 2*eps_r+3 keys before stopping at j;
-   * C07_route_window_bsearch: the binary-search window [lo,hi) then contains j and has at most
-     2*eps_r+3 elements;
-   * C07_route_pos: an eps_r-feasible upper-level line (C03 for that level) evaluated as the C++ does
-     predicts a position within eps_r+1 of j.
-   NOT proved: level-size recurrence and height bound; that the cap by the next intercept preserves
-   the window for keys between two upper-level segments.""",
-   imports=["Base", "PlaModel", "PlaSpec", "GenLeaf", "IndexModel", "IndexProofs"],
-   entries=[("C07_route_window_scan", "IndexProofs.v", "route_window_scan"),
-            ("C07_route_window_bsearch", "IndexProofs.v", "route_window_bsearch"),
-            ("C07_route_pos", "IndexProofs.v", "route_pos_from_feasible_line")]),
+   header="""   C07 — bounded work per level, logarithmic height.
+   PROVED on the model for every input and every EpsilonRecursive >= 1 (linear scan AND binary search):
+   * C07_route_trace_partial: for every query q <= last key, every per-level entry of the routing trace
+     (the same trace hook H2 records in the implementation) reads at most 2*eps_r+3 segments, never before the
+     window start, and routing never fails (no scan past the sentinel);
+   * C07_upper_count: a level built over m keys has cnt segments with cnt*(2eps_r+1) <= m + (2eps_r+1)
+     (+ (par-1)(2eps_r+1) when chunked), i.e. at most floor(m/(2eps_r+1)) + c;
+   * C07_build_level_shrinks / C07_build_never_out_of_fuel: every upper level is strictly smaller than the one
+     below and the level loop terminates -- this uses the translated 2^15 threshold and the cap of 20 chunks;
+   * the window arithmetic on the translated macros.
+   NOT proved: the trace bound for last < q < sentinel (the shared-key case gives 2eps_r+4 on paper); judged.""",
+   imports=["Base", "PlaModel", "PlaSpec", "GenLeaf", "IndexModel", "IndexProofs", "IdxFed", "IdxSeg", "IdxBlock", "IdxLevel", "IdxSearch0", "IdxRoute", "IdxChain", "IdxMain", "IdxBeyond", "IdxFuel"],
+   entries=[("C07_route_trace_partial", "@check", "C07_route_trace_partial"),
+            ("C07_upper_count", "@check", "upper_count"),
+            ("C07_build_level_shrinks", "@check", "build_level_shrinks"),
+            ("C07_build_never_out_of_fuel", "IdxFuel.v", "build_never_out_of_fuel"),
+            ("C07_route_window_scan", "IndexProofs.v", "route_window_scan"),
+            ("C07_route_window_bsearch", "IndexProofs.v", "route_window_bsearch")]),
  "C03": dict(
    header="""   C03 — every constraint point is within epsilon (+1/2 for the rounded intercept) of its segment.
    Proved for integer keys in exact arithmetic, every eps >= 0, no bound on n or on coordinates
@@ -96,15 +100,18 @@ Proof. vm_compute. reflexivity. Qed.
      make_segmentation_par correspond one-to-one, in order, to consecutive non-empty blocks of the fed
      points (every fed point covered by exactly one segment), each block starting at the segment's first
      key and lying within eps + 1/2 of the segment's reported line (blocks_ok).
-   NOT proved here: that the fed points contain each distinct key at its first-occurrence rank and
-   that fed abscissae increase (judged on every case through hook H1); floating-point KEYS (the C++
-   then works in long double with rounding) are outside the model.""",
-   imports=["Base", "PlaModel", "PlaSpec", "PlaCert", "Greedy", "PlaComplete", "PlaSound"],
+   * C03_fed_props / C03_fed_props_par: the fed points are EXACTLY, in increasing order: each distinct key at
+     its first-occurrence rank, the successor of a duplicated key at the rank of the last duplicate when a gap
+     follows, and the closing point (last+1 -> n) -- identical for the sequential and the chunked driver.
+   NOT covered: floating-point KEYS (the C++ then works in long double with rounding) are outside the model.""",
+   imports=["Base", "PlaModel", "PlaSpec", "PlaCert", "Greedy", "PlaComplete", "PlaSound", "IdxFed"],
    entries=[("C03_feed_all_sound", "PlaSound.v", "feed_all_sound"),
             ("C03_reported_line_sound", "PlaSound.v", "reported_line_sound"),
             ("C03_feed_all_reported_line", "PlaSound.v", "feed_all_reported_line"),
             ("C03_segmentation_sound", "PlaSound.v", "make_segmentation_sound"),
-            ("C03_segmentation_par_sound", "PlaSound.v", "make_segmentation_par_sound")],
+            ("C03_segmentation_par_sound", "PlaSound.v", "make_segmentation_par_sound"),
+            ("C03_fed_props", "IdxFed.v", "make_segmentation_fed_props"),
+            ("C03_fed_props_par", "IdxFed.v", "make_segmentation_par_fed_props")],
    examples="""(* non-vacuity: three accepted points with eps = 1 *)
 Example C03_instance : exists s0 s, pla_init 1 = Ok s0 /\\ feed_all y_size_t s0 [(0,0); (2,1); (5,2)] = Ok s.
 Proof. eexists; eexists. split; [vm_compute; reflexivity | vm_compute; reflexivity]. Qed.
